@@ -1169,3 +1169,29 @@ def oracle_c17(op, kv, res, trace, flags):
 
 def nontrivial_c17(op, kv):
     return len(kv.get("h", "")) >= 8
+
+# --------------------------------------------------------------------------
+# C09: the same cases through every build configuration and dispatch outcome
+# --------------------------------------------------------------------------
+def gen_c09(tier, rng):
+    quick = tier == "quick"
+    step = 6 if quick else 2
+    cases = []
+    for g in (gen_c01, gen_c02, gen_c07):
+        src = [c for c in g(tier, rng) if (" be=top" in c or " be=swar" in c or " be=sse2" in c)]
+        cases += src[::step]
+    it = [c for c in gen_c06(tier, rng) if (" be=top" in c or " be=swar" in c)]
+    cases += it[::step]
+    cases += gen_c03(tier, rng)[:: (step * 2)]
+    cases += gen_c04(tier, rng)[:: (step * 2)]
+    return cases
+
+def oracle_c09(op, kv, res, trace, flags):
+    if op in ("find", "rfind", "count"):
+        return oracle_memchr(op, kv, res, trace, flags)
+    if op == "iter":
+        return oracle_iter(op, kv, res, trace, flags)
+    return oracle_mm(op, kv, res, trace, flags)
+
+def nontrivial_c09(op, kv):
+    return len(kv.get("h", "")) >= 16
